@@ -6,6 +6,7 @@ From Coq Require Import NArith ZArith List Bool Permutation.
 From ZV.Gen Require Import Gen_Train.
 From ZV.Train Require Import CoverParams ZdictModel BestModel CoverProofs ZdictProofs BestProofs.
 From ZV.Train Require Import SegmentModel SegmentProofs GroupModel GroupProofs.
+From ZV.Train Require Import LimitsModel LimitsProofs.
 Import ListNotations.
 Local Open Scope N_scope.
 
@@ -368,3 +369,98 @@ Example cv_ctx_example :
   exists keys, cv_ctx [97; 98; 97; 98; 97; 98; 97; 98; 97; 98; 97; 98] [2; 2; 2; 2; 2; 2] 2 =
                Some (keys, [Some 3; Some 2; Some 3; Some 2; Some 3]).
 Proof. eexists. vm_compute. reflexivity. Qed.
+
+(* ==== round 3 (Train/LimitsModel.v): sizes at the top of the integer types, next to the findings of the third wave ==== *)
+
+(* ---- ZDICT_trainFromBuffer_legacy (repaired, f135f24): for EVERY list of sample sizes (sum below 2^64) the trainer keeps a
+        prefix of the samples, the longest one whose total fits ZDICT_MAX_SAMPLES_SIZE; the bytes copied, the offset of the
+        guard band and the bufferSize the two sentinels of the suffix analysis point at are the SAME number (the sentinels
+        "lead into noise"); the second reduction loop inside ZDICT_trainBuffer_legacy is a no-op; the (int) cast given to
+        divsufsort and the malloc sizes do not wrap; --nbSamples never steps below sample 0 *)
+Theorem legacy_guard_follows_analysed : forall sizes, sum3 sizes < SZ ->
+  exists kept dropped, sizes = kept ++ dropped /\
+    sum3 kept <= t_ZDICT_MAX_SAMPLES_SIZE /\
+    (sum3 sizes <= t_ZDICT_MAX_SAMPLES_SIZE -> dropped = []) /\
+    (forall x d, dropped = x :: d -> t_ZDICT_MAX_SAMPLES_SIZE < sum3 kept + x) /\
+    (if sum3 kept <? t_ZDICT_MIN_SAMPLES_SIZE then legacy_plan true sizes = LgNoDict
+     else legacy_plan true sizes = LgPlan (sum3 kept) (sum3 kept) (lenN3 kept)) /\
+    sum3 kept + t_NOISELENGTH < 2 ^ 31 + 32 /\ sum3 kept < 2 ^ 31 /\ (sum3 kept + 2) * t_sizeof_int < SZ.
+Proof. exact legacy_plan_fixed. Qed.
+Print Assumptions legacy_guard_follows_analysed.
+
+Theorem legacy_reduction_never_underflows : forall sizes, sum3 sizes < SZ -> legacy_plan true sizes <> LgTrap.
+Proof. exact legacy_plan_fixed_never_traps. Qed.
+Print Assumptions legacy_reduction_never_underflows.
+
+(* the pinned entry point, for every sample set: the guard band is behind the FULL copy, the analysis ends at the reduced
+   size; they coincide exactly when nothing is dropped *)
+Theorem legacy_pinned_guard_offset : forall sizes, sum3 sizes < SZ ->
+  legacy_plan false sizes = LgNoDict \/
+  exists an nb, legacy_plan false sizes = LgPlan (sum3 sizes) an nb /\ an <= sum3 sizes /\
+    (an = sum3 sizes <-> sum3 sizes <= t_ZDICT_MAX_SAMPLES_SIZE).
+Proof. exact legacy_plan_pinned. Qed.
+Print Assumptions legacy_pinned_guard_offset.
+
+(* witness of finding c18-legacy-reduced-set-no-guard (two samples of 6400 bytes + one of 2000 MB: analysis ends at 12800,
+   guard band 2000 MB further) *)
+Theorem legacy_pinned_refuted :
+  legacy_plan false [t_ZDICT_MAX_SAMPLES_SIZE; 1] = LgPlan (t_ZDICT_MAX_SAMPLES_SIZE + 1) t_ZDICT_MAX_SAMPLES_SIZE 1 /\
+  legacy_plan true [t_ZDICT_MAX_SAMPLES_SIZE; 1] = LgPlan t_ZDICT_MAX_SAMPLES_SIZE t_ZDICT_MAX_SAMPLES_SIZE 1 /\
+  legacy_plan false [6400; 6400; t_ZDICT_MAX_SAMPLES_SIZE] = LgPlan (t_ZDICT_MAX_SAMPLES_SIZE + 12800) 12800 2.
+Proof. exact legacy_plan_pinned_refuted. Qed.
+Print Assumptions legacy_pinned_refuted.
+
+(* ---- ZDICT_analyzeEntropy (repaired, 6b1809d): for every dictionary size below 2^64 ZSTD_highbit32 never gets 0; the
+        size is refused exactly when dictSize + 128 KB needs more than OFFCODE_MAX+1 bits; otherwise
+        2^offcodeMax <= dictSize + 128 KB < 2^(offcodeMax+1), i.e. every offset the statistics pass can produce (and every
+        offset the loaders require to be representable) has an offset code <= offcodeMax <= OFFCODE_MAX <= MaxOff, so the
+        count / normalised-count arrays of OFFCODE_MAX+1 entries are indexed inside *)
+Theorem offcode_max_checked : forall dictSize, dictSize < SZ ->
+  match offcode_max true dictSize with
+  | OcTrap => False
+  | OcTooLarge => 2 ^ (t_OFFCODE_MAX + 1) <= dictSize + t_entropy_window_slack
+  | OcOk m => 17 <= m <= t_OFFCODE_MAX /\ m <= t_MaxOff /\
+              2 ^ m <= dictSize + t_entropy_window_slack < 2 ^ (m + 1)
+  end.
+Proof. exact offcode_max_fixed. Qed.
+Print Assumptions offcode_max_checked.
+
+(* the repair changes nothing below 4 GiB - 128 KiB *)
+Theorem offcode_max_unchanged_below_4g : forall dictSize, dictSize + t_entropy_window_slack < U32M ->
+  offcode_max false dictSize = offcode_max true dictSize.
+Proof. exact offcode_max_agree. Qed.
+Print Assumptions offcode_max_unchanged_below_4g.
+
+(* witness of finding c18-entropy-offcodemax-u32-wrap *)
+Theorem offcode_max_pinned_refuted :
+  offcode_max false (2 ^ 32 - 2 ^ 17) = OcTrap /\
+  offcode_max false (2 ^ 32) = OcOk 17 /\
+  offcode_max false (2 ^ 31 - 2 ^ 17) = OcTooLarge /\
+  offcode_max true (2 ^ 32 - 2 ^ 17) = OcTooLarge /\ offcode_max true (2 ^ 32) = OcTooLarge /\
+  offcode_max true (2 ^ 31 - 2 ^ 17 - 1) = OcOk 30 /\ offcode_max true 0 = OcOk 17.
+Proof. exact LimitsProofs.offcode_max_pinned_refuted. Qed.
+Print Assumptions offcode_max_pinned_refuted.
+
+(* ---- COVER_ctx_init / FASTCOVER_ctx_init (repaired, 3e4461e): for every nbSamples of the type the offsets table is as
+        large as what the fill loop writes, and the loop ends; the pinned code agrees below 2^32-1 samples *)
+Theorem offsets_table_fits : forall nb, nb < U32M ->
+  offsets_alloc true nb = offsets_written nb /\ fill_last true nb = Some (nb + 1).
+Proof. exact offsets_alloc_fixed. Qed.
+Print Assumptions offsets_table_fits.
+
+Theorem offsets_table_pinned_below : forall nb, nb + 1 < U32M ->
+  offsets_alloc false nb = offsets_written nb /\ fill_last false nb = Some (nb + 1).
+Proof. exact offsets_alloc_pinned. Qed.
+Print Assumptions offsets_table_pinned_below.
+
+(* witness of finding c18-ctx-init-nbsamples-plus-one-wrap *)
+Theorem offsets_table_pinned_refuted :
+  offsets_alloc false (U32M - 1) = 0 /\ offsets_written (U32M - 1) = 34359738368 /\ fill_last false (U32M - 1) = None /\
+  offsets_alloc true (U32M - 1) = 34359738368.
+Proof. exact offsets_alloc_pinned_refuted. Qed.
+Print Assumptions offsets_table_pinned_refuted.
+
+Example legacy_plan_example :
+  legacy_plan true [6400; 6400; t_ZDICT_MAX_SAMPLES_SIZE] = LgPlan 12800 12800 2 /\
+  legacy_plan true [100; 100] = LgNoDict /\ legacy_plan true [t_ZDICT_MAX_SAMPLES_SIZE + 1; 600] = LgNoDict.
+Proof. vm_compute. repeat split; reflexivity. Qed.
